@@ -494,6 +494,32 @@ fn main() {
                 }
             }
         }
+        #[cfg(feature = "cb-std")]
+        "reloc" => {
+            // relocation bounds over plain element types of several sizes (C20)
+            let thorough = arg(&args, "--tier").as_deref() == Some("thorough");
+            let t0 = Instant::now();
+            let (evals, nontrivial, samples, failure) = cbverif::reloc_engine::run(thorough, 16);
+            let mut rep = json!({"evaluations": evals, "distinct_nontrivial": nontrivial, "samples": samples, "wall_s": t0.elapsed().as_secs_f64(),
+                "element_types": ["u8", "i8", "u16", "[u8; 3]", "u32", "u64", "[u64; 3]"], "capacities": cbverif::reloc_engine::RCAPS});
+            if let Some((c, m)) = failure {
+                rep["failure"] = json!({"case": serde_json::to_value(&c).unwrap(), "message": m, "rendered": format!("{c:?}")});
+            }
+            std::fs::write(arg(&args, "--out").expect("--out"), serde_json::to_string_pretty(&rep).unwrap()).unwrap();
+        }
+        #[cfg(feature = "cb-std")]
+        "replay-reloc" => {
+            let text = std::fs::read_to_string(&args[2]).expect("read replay file");
+            let v: serde_json::Value = serde_json::from_str(&text).expect("replay file is not JSON");
+            let c: cbverif::reloc_engine::RCase = serde_json::from_value(v["case"].clone()).expect("case");
+            match cbverif::reloc_engine::run_rcase(&c) {
+                Ok(_) => println!("ok"),
+                Err(m) => {
+                    println!("FAIL {m}");
+                    std::process::exit(1);
+                }
+            }
+        }
         "alloc" => {
             cbverif::watch::start(60);
             use cbverif::alloc_engine as ae;
